@@ -3,5 +3,5 @@ from .core import Ctx, EngineError, Infeasible, PathEnd, Unsupported, ctx, explo
 from .runtime import LoopSpec  # noqa: F401
 from .unit import U, Outcome  # noqa: F401
 from .values import (And, Iff, Implies, Ite, Not, Or, SBool, SBytes, SInt, SObj, SReal, SSeq, Src, Seg, blen,  # noqa: F401
-                     fields, fresh_bool, fresh_int, fresh_like, fresh_real, is_sym, methods, mk_bool, mk_int, tbool, tint, SOpt, is_none)
+                     fields, fresh_bool, fresh_int, fresh_like, fresh_real, is_sym, methods, mk_bool, mk_int, tbool, tint, SOpt, is_none, SIncSeq)
 from . import stubs  # noqa: F401
